@@ -21,10 +21,18 @@ S1 == [admin |-> "A", funcs |-> ("r1" :> {"f1"} @@ "r2" :> {"f2"}),
        now |-> 0, assigned |-> {<<"A", "r1">>, <<"B", "r2">>}]
 \* S1 followed by Delegate(A -> B, r1, period 1, level 1): two ticks later the delegation has expired
 S2 == [S1 EXCEPT !.deleg = [NoDelegs EXCEPT !["B"]["r1"] = [root |-> "A", expire |-> 1, level |-> 1]]]
+\* S1 followed by AssignIds(A,r1,{B}) (two holders of r1), Delegate(A -> C, r1, period 1, level 1), Tick, Tick:
+\* C's delegation entry rooted in A has EXPIRED but is still stored; a delegation by B renews that entry in place
+S3 == [S1 EXCEPT !.tokens = [@ EXCEPT !["B"] = {"r1", "r2"}],
+                 !.assigned = @ \cup {<<"B", "r1">>},
+                 !.deleg = [NoDelegs EXCEPT !["C"]["r1"] = [root |-> "A", expire |-> 1, level |-> 1]],
+                 !.now = 2]
+Inits3 == {S3}
 Inits2 == {S2}
 Inits0 == {S0}
 Inits1 == {S1}
 Inits01 == {S0, S1}
+InitsAll == {S0, S1, S2, S3}
 
 Edge == PrintT(<<"EDGE", ToJson([from |-> State, act |-> act', to |-> State'])>>)
 InitOut == (TLCGet("level") = 1) => PrintT(<<"INIT", ToJson(State)>>)
